@@ -133,6 +133,7 @@ func Load(repo, goos, goarch string) (*Program, error) {
 	InitFuncCanon(p)
 	InitGlobalCanon(p)
 	InitCmpCanon(p)
+	InitConstCanon(p)
 	return p, nil
 }
 
@@ -158,7 +159,14 @@ func (p *Program) Obj(pkg, name string) types.Object {
 	if pk == nil || pk.Types == nil {
 		return nil
 	}
-	return pk.Types.Scope().Lookup(name)
+	if o := pk.Types.Scope().Lookup(name); o != nil {
+		return o
+	}
+	// an unexported constant carried on under another name (see canonconst.go)
+	if k := renamedConst[pkg+"."+name]; k != nil {
+		return k
+	}
+	return nil
 }
 
 // Named looks up a named type.
